@@ -423,6 +423,29 @@ func misuse(db *originium.DB, name string, fail func(string, string, ...any)) bo
 			fail("misuse/get-after-commit", "Get on a committed transaction returned %q", v)
 			return false
 		}
+		// the same on the very key the finished transaction wrote, with a value of the same length and a shorter one:
+		// the refused call must not reach the bytes the commit handed to the engine (checked by value, on a key of
+		// its own that the model does not track)
+		t4 := db.Begin(true)
+		t4.Set("misuse-key", []byte("first-value"))
+		t4.Set("misuse-key", []byte("committed-value"))
+		if err := t4.Commit(); err != nil {
+			fail("unexpected-commit-error", "%v", err)
+			return false
+		}
+		for _, ghost := range []string{"GHOSTGHOSTGHOST", "GHOST", ""} {
+			if err := t4.Set("misuse-key", []byte(ghost)); err != originium.ErrDiscardedTxn {
+				fail("misuse/set-after-commit", "Set on a committed transaction returned %v", err)
+				return false
+			}
+			var got string
+			var found bool
+			db.View(func(t *originium.Txn) error { v, ok := t.Get("misuse-key"); got, found = string(v), ok; return nil })
+			if !found || got != "committed-value" {
+				fail("misuse/set-after-commit-visible", "after a refused Set(%q) through the handle of a committed transaction its key reads (%q,%v), committed was %q", ghost, got, found, "committed-value")
+				return false
+			}
+		}
 		// a handle leaked out of an Update closure that returned nil
 		var leaked *originium.Txn
 		if err := db.Update(func(t *originium.Txn) error { leaked = t; return t.Delete(seqNeverKey) }); err != nil {
